@@ -226,7 +226,7 @@ def gen_worker(args):
 def correspondence(res):
     from props import c02
     W = 14
-    n = 84 if res.tier == "quick" else 700
+    n = 84 if res.tier == "quick" else 336
     terms, infos = c02.parallel(res, gen_worker, [(res.seed * 1000 + w, max(1, n // W)) for w in range(W)])
     crashes = [inf for t, inf in zip(terms, infos) if t is None]
     pairs = [(t, inf) for t, inf in zip(terms, infos) if t is not None]
